@@ -1,3 +1,174 @@
-import CalicoVerif.Model.C05
+import CalicoVerif.Proofs.C05
+/-!
+C05 — Missing or invalid references fail closed.
+
+Property theorems over the model `CalicoVerif/Model/C05.lean` of the profile path of
+`felix/calc/active_rules_calculator.go` and of `felix/calc/validation_filter.go`.
+All theorems quantify over EVERY history of raw datastore updates (endpoints with any
+profile-id lists incl. duplicates and empties, profile rules, deletions, invalid values,
+repeats) starting from a fresh calculator.  The validators themselves are trusted: an update
+carries the bit "passes validation".
+-/
 namespace CalicoVerif.C05
+
+set_option linter.unusedSectionVars false
+variable {R : Type} [DecidableEq R]
+
+/-- endpoint `ep` currently (validly) exists and lists profile `p` -/
+def referenced (st : Arc R) (p : String) : Prop :=
+  ∃ ep ids, alGet ep st.epProfiles = some ids ∧ p ∈ ids
+
+theorem isActive_iff_referenced {st : Arc R} (h : RefInv st) (p : String) :
+    isActive st p = true ↔ referenced st p := by
+  rw [isActive_iff]
+  constructor
+  · rintro ⟨ep, hep⟩; obtain ⟨ids, h1, h2⟩ := (h p ep).1 hep; exact ⟨ep, ids, h1, h2⟩
+  · rintro ⟨ep, ids, h1, h2⟩; exact ⟨ep, (h p ep).2 ⟨ids, h1, h2⟩⟩
+
+/-- **Missing or invalid profile ⇒ deny.**  After any history, a profile that some local endpoint
+references but that does not exist (never created, deleted while referenced, or replaced by a
+version that fails validation) is active at the rule scanner with the deny stand-in. -/
+theorem missing_profile_denies (us : List (RawUpd R)) (p : String)
+    (href : referenced (runRaw (Arc.new R) us) p)
+    (hmiss : alGet p (runRaw (Arc.new R) us).profiles = none) :
+    alGet p (view (runRaw (Arc.new R) us).out) = some .dummyDrop := by
+  have hv := run_view (us.map filter) (viewInv_new (R := R))
+  have hr := run_ref (us.map filter) (refInv_new (R := R))
+  have := hv p
+  unfold runRaw at href hmiss ⊢
+  rw [(isActive_iff_referenced hr p).2 href] at this
+  simpa [outOf, hmiss] using this
+
+/-- **Known profile ⇒ its real rules** (in particular: in the very step in which a missing profile
+arrives, the deny stand-in is replaced by the real rules — the invariant holds after every step). -/
+theorem known_profile_real_rules (us : List (RawUpd R)) (p : String) (r : R)
+    (href : referenced (runRaw (Arc.new R) us) p)
+    (hk : alGet p (runRaw (Arc.new R) us).profiles = some r) :
+    alGet p (view (runRaw (Arc.new R) us).out) = some (.real r) := by
+  have hv := run_view (us.map filter) (viewInv_new (R := R))
+  have hr := run_ref (us.map filter) (refInv_new (R := R))
+  have := hv p
+  unfold runRaw at href hk ⊢
+  rw [(isActive_iff_referenced hr p).2 href] at this
+  simpa [outOf, hk] using this
+
+/-- A profile no endpoint references is not active at all. -/
+theorem unreferenced_profile_inactive (us : List (RawUpd R)) (p : String)
+    (href : ¬ referenced (runRaw (Arc.new R) us) p) :
+    alGet p (view (runRaw (Arc.new R) us).out) = none := by
+  have hv := run_view (us.map filter) (viewInv_new (R := R))
+  have hr := run_ref (us.map filter) (refInv_new (R := R))
+  have := hv p
+  unfold runRaw at href ⊢
+  have hna : isActive (run (Arc.new R) (us.map filter)) p = false := by
+    cases h : isActive (run (Arc.new R) (us.map filter)) p
+    · rfl
+    · exact absurd ((isActive_iff_referenced hr p).1 h) href
+  rw [hna] at this
+  simpa using this
+
+/-- The stored profile table is "last valid writer wins": a valid profile update stores the rules,
+a deletion or an invalid value removes them. -/
+theorem profile_table_after (st : Arc R) (p : String) (v : Option (R × Bool)) :
+    alGet p (step st (filter (.profileRules p v))).profiles =
+      match v with
+      | some (r, true) => some r
+      | _ => none := by
+  have hsend : ∀ (q : String) (x : Option R) (s : Arc R), (sendProfileUpdate q x s).profiles = s.profiles :=
+    fun q x s => (sendProfileUpdate_frame q x s).2.2
+  have hdel : alGet p (step st (.profileRules p none)).profiles = none := by
+    simp only [step, updateProfileRules]
+    split
+    · rw [hsend]; simp [alGet_alErase]
+    · simp [alGet_alErase]
+  match v with
+  | none => exact hdel
+  | some (r, false) => exact hdel
+  | some (r, true) =>
+    simp only [filter, if_true, step, updateProfileRules]
+    split
+    · assumption
+    · split
+      · rw [hsend]; simp [alGet_alSet]
+      · simp [alGet_alSet]
+
+/-- An endpoint's recorded profile list is "last valid writer wins" too. -/
+theorem endpoint_table_after (st : Arc R) (ep : String) (v : Option (List String × Bool)) :
+    alGet ep (step st (filter (.endpoint ep v))).epProfiles =
+      match v with
+      | some (ids, true) => if ids.isEmpty then none else some ids
+      | _ => none := by
+  have key : ∀ ids : List String, alGet ep (updateEndpointProfileIDs ep ids st).epProfiles =
+      if ids.isEmpty then none else some ids := by
+    intro ids
+    unfold updateEndpointProfileIDs
+    simp only
+    rw [(foldl_removeOne_frame ep _ _).2, (foldl_addOne_frame ep _ _).2]
+    by_cases h : ids.isEmpty
+    · simp [h, alGet_alErase]
+    · simp [h, alGet_alSet]
+  match v with
+  | none => simpa [filter, step] using key []
+  | some (ids, false) => simpa [filter, step] using key []
+  | some (ids, true) => simpa [filter, step] using key ids
+
+/-! ### invalid = absent -/
+
+/-- replace every value that fails validation by a deletion -/
+def asDelete : RawUpd R → RawUpd R
+  | .endpoint ep (some (_, false)) => .endpoint ep none
+  | .profileRules p (some (_, false)) => .profileRules p none
+  | u => u
+
+theorem filter_asDelete (u : RawUpd R) : filter (asDelete u) = filter u := by
+  cases u with
+  | endpoint ep v =>
+    match v with
+    | none => rfl
+    | some (ids, true) => rfl
+    | some (ids, false) => rfl
+  | profileRules p v =>
+    match v with
+    | none => rfl
+    | some (r, true) => rfl
+    | some (r, false) => rfl
+
+/-- **Invalid = absent.**  Any history behaves exactly like the same history in which every value
+that fails validation has been replaced by a deletion of that key: same stored state, same calls
+to the rule scanner, at every position (apply to every prefix). -/
+theorem invalid_eq_absent (st : Arc R) (us : List (RawUpd R)) :
+    runRaw st us = runRaw st (us.map asDelete) := by
+  unfold runRaw
+  rw [List.map_map]
+  congr 1
+  apply List.map_congr_left
+  intro u _
+  exact (filter_asDelete u).symm
+
+/-- **Never partially applied.**  What an invalid value contains is irrelevant: two histories that
+differ only in the contents of values that fail validation behave identically. -/
+theorem invalid_content_irrelevant (st : Arc R) (us us' : List (RawUpd R))
+    (h : us.map asDelete = us'.map asDelete) : runRaw st us = runRaw st us' := by
+  rw [invalid_eq_absent st us, invalid_eq_absent st us', h]
+
+/-- A value that passes validation reaches the calculator unchanged. -/
+theorem filter_valid_passthrough (ep p : String) (ids : List String) (r : R) :
+    filter (R := R) (.endpoint ep (some (ids, true))) = .endpoint ep (some ids) ∧
+    filter (.profileRules p (some (r, true))) = .profileRules p (some r) := ⟨rfl, rfl⟩
+
+/-! ### non-vacuity: late creation, invalid replacement, deletion while referenced -/
+
+def exHist : List (RawUpd Nat) :=
+  [ .endpoint "w1" (some (["p1", "p2"], true)),      -- references p1, p2: both missing
+    .profileRules "p1" (some (7, true)),              -- p1 arrives late
+    .profileRules "p2" (some (8, false)),             -- p2 arrives but is invalid
+    .profileRules "p1" (some (9, false)) ]            -- p1 replaced by an invalid version
+
+example : alGet "p1" (view (runRaw (Arc.new Nat) (exHist.take 1)).out) = some .dummyDrop := by decide
+example : alGet "p1" (view (runRaw (Arc.new Nat) (exHist.take 2)).out) = some (.real 7) := by decide
+example : alGet "p2" (view (runRaw (Arc.new Nat) (exHist.take 3)).out) = some .dummyDrop := by decide
+example : alGet "p1" (view (runRaw (Arc.new Nat) exHist).out) = some .dummyDrop := by decide
+example : referenced (runRaw (Arc.new Nat) exHist) "p1" := ⟨"w1", ["p1", "p2"], by decide, by decide⟩
+example : alGet "p1" (runRaw (Arc.new Nat) exHist).profiles = none := by decide
+
 end CalicoVerif.C05
